@@ -342,7 +342,21 @@ func c13Exec(x *c13Ctx, in c13Input) {
 	}
 	defer k.Close()
 	var m *refctl.Msg
-	if in.Framing != "" && in.State == "verified" {
+	if in.Framing == "chunked" {
+		// the body travels with Transfer-Encoding: chunked (no Content-Length), in two chunks
+		var raw bytes.Buffer
+		fmt.Fprintf(&raw, "%s %s HTTP/1.1\r\nHost: accessory.local\r\nContent-Type: %s\r\nTransfer-Encoding: chunked\r\n\r\n", in.Method, in.Path, in.CType)
+		cut := len(in.Body) / 2
+		for _, part := range [][]byte{in.Body[:cut], in.Body[cut:]} {
+			if len(part) > 0 {
+				fmt.Fprintf(&raw, "%x\r\n%s\r\n", len(part), part)
+			}
+		}
+		raw.WriteString("0\r\n\r\n")
+		if err = k.Send(raw.Bytes()); err == nil {
+			m, _, err = k.Await()
+		}
+	} else if in.Framing != "" && in.State == "verified" {
 		req := refctl.BuildRequest(in.Method, in.Path, in.CType, in.Body)
 		var pieces [][]byte
 		switch in.Framing {
@@ -551,6 +565,13 @@ func c13Inputs(b *bed, thorough bool) []c13Input {
 		out = append(out, c13Input{State: "verified", Method: "GET", Path: "/accessories", Framing: fr, Class: "framing:" + fr})
 		out = append(out, c13Input{State: "verified", Method: "PUT", Path: "/characteristics", CType: refctl.CTJSON, Body: []byte(fmt.Sprintf(`{"characteristics":[{"aid":%d,"iid":%d,"value":33}]}`, aid, iid)), Framing: fr, Class: "framing:" + fr})
 	}
+	// pairing requests whose body is sent with chunked transfer encoding (no Content-Length): a well-formed start, and garbage
+	for _, st := range []string{"fresh", "verify-M1", "setup-M3", "verified"} {
+		out = append(out, c13Input{State: st, Method: "POST", Path: "/pair-verify", CType: refctl.CTPairing, Body: refctl.VerifyM1(pat(32, 9)), Framing: "chunked", Class: "chunked:verify-start"})
+		out = append(out, c13Input{State: st, Method: "POST", Path: "/pair-setup", CType: refctl.CTPairing, Body: refctl.TLVEncode(refctl.T(refctl.TagState, []byte{1}), refctl.T(0, []byte{0})), Framing: "chunked", Class: "chunked:setup-start"})
+		out = append(out, c13Input{State: st, Method: "POST", Path: "/pairings", CType: refctl.CTPairing, Body: pat(40, 3), Framing: "chunked", Class: "chunked:pairings-garbage"})
+		out = append(out, c13Input{State: st, Method: "POST", Path: "/pair-setup", CType: refctl.CTPairing, Body: pat(5000, 4), Framing: "chunked", Class: "chunked:setup-5000-bytes-garbage"})
+	}
 	// encrypted items far longer than a session frame (a TLV value may have any length)
 	for _, n := range []int{1024, 1025, 1040, 1041, 2000, 70000} {
 		for _, st := range []string{"fresh", "verify-M1", "setup-M3", "verified"} {
@@ -663,7 +684,7 @@ func init() {
 	fw.Register(&fw.Check{
 		ID:    "C13",
 		Level: "exploration",
-		Rule:  "for every protocol state reachable by a prefix of a correct exchange (fresh connection; pair-setup after M1 and after a right-code M3; pair-verify after M1; verified encrypted session) × every endpoint (/pair-setup, /pair-verify, /pairings, /characteristics GET+PUT, /accessories, /resource, /identify, unknown paths and methods) an input alphabet derived mechanically from the correct next messages: empty body, every prefix, every item removed / duplicated / re-tagged, item lengths 0,1,255,256,300, encrypted payloads of length 0..17 and with each of the 16 tag bytes flipped, key-exchange / finish messages CORRECTLY sealed under the running exchange's key but with malformed signed sub-TLVs (key and signature lengths 0/31/33/63/65, missing items, names of stored entities with a short or no key), method and state bytes 0..255, garbage; JSON bodies with wrong types per field, 1e999, -0, 2^64, nesting depth 10000 / 100000, duplicate keys, 1 MiB string, 5000 entries, invalid UTF-8; malformed id queries. Real transport over TCP. Oracle per input: no handler panic (net/http's panic log, attributed by remote address), a well-formed HTTP response (any status) instead of a dropped connection, then a correct pair-verify on the SAME connection after at most one rejected start (or, on a verified connection, a further encrypted request), and a correct handshake + read + write on a NEW connection. distinct_nontrivial = distinct (endpoint, state, status) classes Values for float, bool and two tlv8 targets without a value (a write-only one with a typed application callback, a readable unset one; numbers, lists and objects, each twice): \"NaN\", \"Inf\", \"1e999\", 1e999, \"0x10\", null, arrays, objects, ±1e308, 5e-324 (a verified observer is subscribed to the targets, so changes run the notification path); encrypted items of 1024…70000 bytes in pair-verify finish and pair-setup key-exchange messages; pair-verify start requests whose public key is 0, 1, p−1, p, p+1, 2^256−1 or a point of order 8; on a verified connection, requests cut into session frames in unusual well-formed ways (a frame without data before, inside or after the request; one frame per byte); a verified connection whose first event operation is an unsubscription; a completely valid key exchange whose identifier (125 / 300 bytes) cannot be stored; finishes naming 'device' and the connection's own address (keys of the accessory's own bookkeeping).",
+		Rule:  "for every protocol state reachable by a prefix of a correct exchange (fresh connection; pair-setup after M1 and after a right-code M3; pair-verify after M1; verified encrypted session) × every endpoint (/pair-setup, /pair-verify, /pairings, /characteristics GET+PUT, /accessories, /resource, /identify, unknown paths and methods) an input alphabet derived mechanically from the correct next messages: empty body, every prefix, every item removed / duplicated / re-tagged, item lengths 0,1,255,256,300, encrypted payloads of length 0..17 and with each of the 16 tag bytes flipped, key-exchange / finish messages CORRECTLY sealed under the running exchange's key but with malformed signed sub-TLVs (key and signature lengths 0/31/33/63/65, missing items, names of stored entities with a short or no key), method and state bytes 0..255, garbage; JSON bodies with wrong types per field, 1e999, -0, 2^64, nesting depth 10000 / 100000, duplicate keys, 1 MiB string, 5000 entries, invalid UTF-8; malformed id queries. Real transport over TCP. Oracle per input: no handler panic (net/http's panic log, attributed by remote address), a well-formed HTTP response (any status) instead of a dropped connection, then a correct pair-verify on the SAME connection after at most one rejected start (or, on a verified connection, a further encrypted request), and a correct handshake + read + write on a NEW connection. distinct_nontrivial = distinct (endpoint, state, status) classes Values for float, bool and two tlv8 targets without a value (a write-only one with a typed application callback, a readable unset one; numbers, lists and objects, each twice): \"NaN\", \"Inf\", \"1e999\", 1e999, \"0x10\", null, arrays, objects, ±1e308, 5e-324 (a verified observer is subscribed to the targets, so changes run the notification path); encrypted items of 1024…70000 bytes in pair-verify finish and pair-setup key-exchange messages; pair-verify start requests whose public key is 0, 1, p−1, p, p+1, 2^256−1 or a point of order 8; on a verified connection, requests cut into session frames in unusual well-formed ways (a frame without data before, inside or after the request; one frame per byte); a verified connection whose first event operation is an unsubscription; a completely valid key exchange whose identifier (125 / 300 bytes) cannot be stored; finishes naming 'device' and the connection's own address (keys of the accessory's own bookkeeping). Pairing requests whose body travels with chunked transfer encoding (a well-formed start, garbage, 5000 bytes of garbage) in every state.",
 		Run:   c13Run,
 		Replay: func(c *fw.Ctx, raw json.RawMessage) {
 			var in c13Input
